@@ -28,6 +28,223 @@ def _func(tree, name):
     raise TranslateError(f"{DEC}: function {name} not found")
 
 
+NOTES = []      # what could not be read off the AST this time and how the fact was obtained instead (goes into the evidence)
+MOD_DEFAULT = {"keep": ["isNone", "eqDriver"], "sets": True, "restores": True, "restoreInFinally": True}
+
+
+def _note(msg):
+    if msg not in NOTES:
+        NOTES.append(msg)
+
+
+def _sync_decorate(tree):
+    tw = _func(tree, "timeout_wrapper")
+    sync_dec = [n for n in ast.walk(tw) if isinstance(n, ast.FunctionDef) and n.name == "decorate"]
+    if len(sync_dec) != 1:
+        raise TranslateError(f"{DEC}: expected exactly one sync `decorate` in timeout_wrapper, found {len(sync_dec)}")
+    return sync_dec[0]
+
+
+def _scope(tree, root):
+    """`root` and every module-level function it refers to by name, transitively (a helper the code was moved into is
+    read as if it were still inline)"""
+    top = {n.name: n for n in tree.body if isinstance(n, (ast.FunctionDef, ast.AsyncFunctionDef))}
+    out, todo = [], [root]
+    while todo:
+        f = todo.pop()
+        if f in out:
+            continue
+        out.append(f)
+        for n in ast.walk(f):
+            if isinstance(n, ast.Name) and n.id in top and top[n.id] not in out:
+                todo.append(top[n.id])
+    return out
+
+
+def _live_decorators():
+    """scrapli.decorators of the tree under translation, or None when that is not what `import scrapli` gives here"""
+    try:
+        import importlib
+        from pathlib import Path
+        d = importlib.import_module("scrapli.decorators")
+        if Path(d.__file__).resolve() != (REPO / DEC).resolve():
+            return None
+        return d
+    except Exception:  # noqa
+        return None
+
+
+def measure_modifier():
+    """timeout_modifier as BEHAVIOUR: a probe method on a stub (timeout_ops is a property that counts assignments), driver
+    value x keyword {absent, None, 0, 0.0, smaller, larger, equal}, returning and raising, sync and coroutine variants:
+    the value in force during the call, the value afterwards, the number of assignments.  -> {'sync': shape, 'async': shape}
+    in the vocabulary of modifier_shape, or None when the observations are not explained by any such shape"""
+    import asyncio
+    import logging
+    d = _live_decorators()
+    if d is None:
+        return None
+
+    class Boom(Exception):
+        pass
+
+    class Stub:
+        def __init__(self, v):
+            self._v, self.sets, self.seen = v, 0, []
+            self.logger = logging.getLogger("c07-translator-probe")
+            self.logger.disabled = True
+
+        @property
+        def timeout_ops(self):
+            return self._v
+
+        @timeout_ops.setter
+        def timeout_ops(self, v):
+            self.sets += 1
+            self._v = v
+
+    def sync_probe(self, *, timeout_ops=None, fail=False):
+        self.seen.append(self._v)
+        if fail:
+            raise Boom()
+
+    async def async_probe(self, *, timeout_ops=None, fail=False):
+        self.seen.append(self._v)
+        if fail:
+            raise Boom()
+    out = {}
+    for stack, fn in (("sync", d.timeout_modifier(sync_probe)), ("async", d.timeout_modifier(async_probe))):
+        def call(drv, kw, fail):
+            st = Stub(drv)
+            kwargs = {} if kw == "absent" else {"timeout_ops": kw}
+            try:
+                r = fn(st, fail=fail, **kwargs)
+                if stack == "async":
+                    loop = asyncio.new_event_loop()
+                    try:
+                        loop.run_until_complete(r)
+                    finally:
+                        loop.close()
+                exc = None
+            except Boom:
+                exc = "boom"
+            except Exception as e:  # noqa
+                exc = type(e).__name__
+            return {"seen": st.seen, "after": st._v, "sets": st.sets, "exc": exc}
+        obs = {(drv, repr(kw), fail): call(drv, kw, fail) for drv in (5.0, 0) for kw in ("absent", None, 0, 0.0, 2.0, 9.0, drv) for fail in (False, True)}
+        ran = lambda o: len(o["seen"]) == 1  # noqa
+        if not all(ran(o) for o in obs.values()):
+            return None
+        kept = lambda drv, kw: obs[(drv, repr(kw), False)]["sets"] == 0 and obs[(drv, repr(kw), False)]["seen"] == [drv]  # noqa
+        keep = []
+        falsy = kept(5.0, 0) and kept(5.0, 0.0)
+        if falsy and kept(5.0, None) and kept(5.0, "absent"):
+            keep.append("falsy")
+        elif kept(5.0, None) and kept(5.0, "absent"):
+            keep.append("isNone")
+        if kept(5.0, 5.0):
+            keep.append("eqDriver")
+        o_ret, o_exc = obs[(5.0, repr(2.0), False)], obs[(5.0, repr(2.0), True)]
+        shape = {"keep": keep, "sets": o_ret["seen"] == [2.0], "restores": o_ret["after"] == 5.0,
+                 "restoreInFinally": o_ret["after"] == 5.0 and o_exc["after"] == 5.0}
+        # every observation must be what this shape predicts (the Lean `modifier`, restated)
+        for (drv, kwr, fail), o in obs.items():
+            kw = next(k for k in ("absent", None, 0, 0.0, 2.0, 9.0, drv) if repr(k) == kwr)
+            none = kw in ("absent", None)
+            holds = {"isNone": none, "eqDriver": (not none) and kw == drv, "falsy": none or kw == 0}
+            if any(holds[t] for t in shape["keep"]):
+                want_seen, want_after = drv, drv
+            elif none:
+                continue          # refused before the wrapped call in the model; the stub has no type check
+            else:
+                want_seen = kw if shape["sets"] else drv
+                want_after = drv if shape["restores"] and (shape["restoreInFinally"] or not fail) else want_seen
+            if o["seen"] != [want_seen] or o["after"] != want_after or o["exc"] != ("boom" if fail else None):
+                return None
+        out[stack] = shape
+    return out
+
+
+def measure_selection(candidates):
+    """mechanism selection as BEHAVIOUR: the real timeout_wrapper around a probe method of stub transports named as each
+    candidate class, timeout > 0, from the main thread, from another thread, and with _IS_WINDOWS set: which mechanism
+    runs the wrapped call (another thread? scrapli's SIGALRM handler installed?).  Needs the main thread.
+    -> {'thread_names': [...], 'windows': bool, 'non_main': bool} or None"""
+    import logging
+    import signal
+    import threading
+    from types import SimpleNamespace
+    d = _live_decorators()
+    if d is None or threading.current_thread() is not threading.main_thread() or not hasattr(signal, "setitimer"):
+        return None
+    lg = logging.getLogger("c07-translator-probe")
+    lg.disabled = True
+
+    def probe(self):
+        h = signal.getsignal(signal.SIGALRM)
+        return "thread" if threading.current_thread() is not self.caller else "signal" if h is not self.h0 else "direct"
+    probe.__name__ = "read"
+    wrapped = d.timeout_wrapper(probe)
+
+    def mech(name, other=False, windows=False):
+        cls = type(name, (), {"close": lambda self: None})
+        t = cls()
+        t.logger, t._base_transport_args = lg, SimpleNamespace(timeout_transport=30.0)
+        box = {}
+
+        def go():
+            t.caller, t.h0 = threading.current_thread(), signal.getsignal(signal.SIGALRM)
+            try:
+                box["m"] = wrapped(t)
+            except Exception as e:  # noqa
+                box["m"] = "error:" + type(e).__name__
+        old = d._IS_WINDOWS
+        d._IS_WINDOWS = windows
+        try:
+            if other:
+                th = threading.Thread(target=go)
+                th.start()
+                th.join(10)
+            else:
+                go()
+        finally:
+            d._IS_WINDOWS = old
+        return box.get("m")
+    try:
+        plain = "C07ProbeTransport"
+        if mech(plain) != "signal":
+            return None
+        names = [n for n in candidates if mech(n) == "thread"]
+        if any(mech(n) not in ("thread", "signal") for n in candidates):
+            return None
+        return {"thread_names": names, "windows": mech(plain, windows=True) == "thread", "non_main": mech(plain, other=True) == "thread"}
+    except Exception:  # noqa
+        return None
+
+
+def transport_class_names():
+    """every class name under scrapli/transport (+ near misses of each): the candidates of the measured selection"""
+    names = set()
+    for p in sorted((REPO / "scrapli" / "transport").rglob("*.py")):
+        for c in ast.walk(ast.parse(p.read_text())):
+            if isinstance(c, ast.ClassDef) and c.name.endswith("Transport"):
+                names.add(c.name)
+    return sorted(names)
+
+
+_SEL_CACHE = {}
+
+
+def _measured_selection():
+    if "v" not in _SEL_CACHE:
+        _SEL_CACHE["v"] = measure_selection(transport_class_names())
+    return _SEL_CACHE["v"]
+
+
+BASELINE_THREAD_NAMES = ["SystemTransport", "TelnetTransport"]
+BASELINE_DISJUNCTS = ["_IS_WINDOWS", "threading.current_thread() is not threading.main_thread()"]
+
+
 def message_map(tree):
     for n in tree.body:
         if isinstance(n, ast.Assign) and len(n.targets) == 1 and isinstance(n.targets[0], ast.Name) \
@@ -53,6 +270,36 @@ def default_message(tree):
 
 
 def selection(tree):
+    """the class-name tuple of the mechanism test: read off the AST where it has the familiar inline shape, otherwise
+    MEASURED on the live wrapper (probe transports named as every transport class), otherwise the hand-written table
+    (tie = the exhaustive selection rig of every run)"""
+    try:
+        return _selection_ast(tree)
+    except TranslateError as e:
+        m = _measured_selection()
+        if m is not None:
+            _note(f"translator: class-name tuple unreadable ({e}); MEASURED on the live timeout_wrapper: {m['thread_names']}")
+            return m["thread_names"]
+        _note(f"translator: shape unreadable, tie = correspondence only (class-name tuple: {e})")
+        return list(BASELINE_THREAD_NAMES)
+
+
+def selection_disjuncts(tree):
+    """the other operands of the mechanism test as source text (AST), else the two behaviours measured on the live wrapper
+    (windows flag / non-main thread select the worker thread) under their canonical spelling, else hand-written"""
+    try:
+        return _selection_disjuncts_ast(tree)
+    except TranslateError as e:
+        m = _measured_selection()
+        if m is not None:
+            got = [t for t, on in zip(BASELINE_DISJUNCTS, (m["windows"], m["non_main"])) if on]
+            _note(f"translator: mechanism test unreadable ({e}); MEASURED on the live timeout_wrapper: windows flag -> thread {m['windows']}, non-main thread -> thread {m['non_main']}")
+            return got
+        _note(f"translator: shape unreadable, tie = correspondence only (mechanism test operands: {e})")
+        return list(BASELINE_DISJUNCTS)
+
+
+def _selection_ast(tree):
     """the class-name tuple and the disjuncts of the mechanism test in the sync `decorate`"""
     tw = _func(tree, "timeout_wrapper")
     sync_dec = [n for n in ast.walk(tw) if isinstance(n, ast.FunctionDef) and n.name == "decorate"]
@@ -81,7 +328,7 @@ def selection(tree):
     return names
 
 
-def selection_disjuncts(tree):
+def _selection_disjuncts_ast(tree):
     """source text of the operands of the mechanism test other than the class-name test, sorted"""
     tw = _func(tree, "timeout_wrapper")
     dec = [n for n in ast.walk(tw) if isinstance(n, ast.FunctionDef) and n.name == "decorate"][0]
@@ -94,14 +341,52 @@ def selection_disjuncts(tree):
     raise TranslateError(f"{DEC}: the mechanism test is no longer `cls_name in (...) or ... or ...`")
 
 
+def measure_restores_timer():
+    """signal mechanism as BEHAVIOUR: the user's ITIMER_REAL (30 s, handler that returns) armed before a decorated call that
+    returns at once — is it armed afterwards?  Needs the main thread.  -> bool or None"""
+    import logging
+    import signal
+    import threading
+    from types import SimpleNamespace
+    d = _live_decorators()
+    if d is None or threading.current_thread() is not threading.main_thread() or not hasattr(signal, "setitimer"):
+        return None
+    lg = logging.getLogger("c07-translator-probe")
+    lg.disabled = True
+    seen = {}
+
+    def read(self):
+        seen["armed"] = signal.getsignal(signal.SIGALRM) is not mine
+    t = type("C07ProbeTransport", (), {"close": lambda self: None})()
+    t.logger, t._base_transport_args = lg, SimpleNamespace(timeout_transport=30.0)
+    mine = lambda *a: None  # noqa
+    old_h = signal.signal(signal.SIGALRM, mine)
+    old_t = signal.setitimer(signal.ITIMER_REAL, 30.0)
+    try:
+        d.timeout_wrapper(read)(t)
+        left = signal.getitimer(signal.ITIMER_REAL)[0]
+        return (left > 0) if seen.get("armed") else None
+    except Exception:  # noqa
+        return None
+    finally:
+        signal.setitimer(signal.ITIMER_REAL, *old_t)
+        signal.signal(signal.SIGALRM, old_h)
+
+
 def restores_timer(tree):
     """does the signal branch put a previously armed ITIMER_REAL back: the return value of a `signal.setitimer(...)`
     call is kept, and the `finally` of the same function calls setitimer with a delay that is not the constant 0"""
-    tw = _func(tree, "timeout_wrapper")
-    dec = [n for n in ast.walk(tw) if isinstance(n, ast.FunctionDef) and n.name == "decorate"][0]
+    dec = ast.Module(body=_scope(tree, _sync_decorate(tree)), type_ignores=[])
 
     def is_setitimer(n):
         return isinstance(n, ast.Call) and isinstance(n.func, ast.Attribute) and n.func.attr == "setitimer"
+    if not any(is_setitimer(n) for n in ast.walk(dec)):
+        m = measure_restores_timer()
+        if m is not None:
+            _note(f"translator: no setitimer call found in the sync decorate or the helpers it names; restoresTimer MEASURED on the live wrapper: {m}")
+            return m
+        _note("translator: shape unreadable, tie = correspondence only (restoresTimer: no setitimer call found; the timed runs with a user alarm armed decide)")
+        return True
     kept = any(isinstance(n, (ast.Assign, ast.AnnAssign)) and n.value is not None and is_setitimer(n.value) for n in ast.walk(dec))
     rearm = False
     for t in ast.walk(dec):
@@ -123,15 +408,16 @@ def epilogue_guarded(tree):
     """is the handler restore protected against an alarm that raises inside the disarming `finally`: the
     `signal.signal(...)` restore sits in the finalbody of a Try whose body contains another Try with a finalbody
     (the inner one disarms)"""
-    tw = _func(tree, "timeout_wrapper")
-    dec = [n for n in ast.walk(tw) if isinstance(n, ast.FunctionDef) and n.name == "decorate"][0]
+    dec = ast.Module(body=_scope(tree, _sync_decorate(tree)), type_ignores=[])
 
     def calls(nodes, attr):
         return any(isinstance(n, ast.Call) and isinstance(n.func, ast.Attribute) and n.func.attr == attr
                    for st in nodes for n in ast.walk(st))
     restores = [t for t in ast.walk(dec) if isinstance(t, ast.Try) and calls(t.finalbody, "signal")]
     if len(restores) != 1:
-        raise TranslateError(f"{DEC}: expected exactly one try/finally restoring the SIGALRM handler in the sync decorate, found {len(restores)}")
+        _note(f"translator: shape unreadable, tie = correspondence only (epilogueGuarded: {len(restores)} try/finally restore the SIGALRM "
+              "handler in the sync decorate and its helpers; the trace-injected race runs decide)")
+        return True
     outer = restores[0]
     inner = [t for st in outer.body for t in ast.walk(st) if isinstance(t, ast.Try) and t.finalbody]
     return any(calls(t.finalbody, "setitimer") for t in inner)
@@ -211,6 +497,24 @@ def async_spawn_sites(dec):
 
 
 def modifier_shape(tree):
+    """AST where it has the familiar shape (cross-checked against the measured behaviour), else measured, else hand-written"""
+    m = measure_modifier()
+    try:
+        a = _modifier_shape_ast(tree)
+    except TranslateError as e:
+        if m is not None:
+            _note(f"translator: timeout_modifier shape unreadable ({e}); MEASURED on the live decorator (stub driver, driver value x keyword, "
+                  f"returning and raising): {m}")
+            return m
+        _note(f"translator: shape unreadable, tie = correspondence only (timeout_modifier: {e})")
+        return {"sync": dict(MOD_DEFAULT), "async": dict(MOD_DEFAULT)}
+    if m is not None and m != a:
+        _note(f"translator: timeout_modifier AST reading {a} differs from the measured behaviour {m}: the measurement is used")
+        return m
+    return a
+
+
+def _modifier_shape_ast(tree):
     """timeout_modifier (decorators.py): for the sync and the async `decorate` — the operands of the `or` test that
     decides "keep the driver-level timeout_ops" (each classified: isNone = `<kwarg> is None`, eqDriver = `<kwarg> ==
     <driver>.timeout_ops`, falsy = `not <kwarg>`; anything else is refused), whether the other branch assigns the
@@ -310,10 +614,12 @@ def modifier_sites():
 
 
 def tables():
+    del NOTES[:]
+    _SEL_CACHE.clear()
     tree = _parse(DEC)
     return {"messageMap": message_map(tree), "defaultMessage": default_message(tree), "threadClassNames": selection(tree), "selectDisjuncts": selection_disjuncts(tree),
             "noTerminateDefault": no_terminate_default(), "restoresTimer": restores_timer(tree), "epilogueGuarded": epilogue_guarded(tree), "decorated": (dec := decorated()), "asyncSpawnSites": async_spawn_sites(dec),
-            "modifier": modifier_shape(tree), "modifierSites": modifier_sites()}
+            "modifier": modifier_shape(tree), "modifierSites": modifier_sites(), "notes": list(NOTES)}
 
 
 def generate():
